@@ -1,1 +1,3 @@
+pub mod archive;
 pub mod bytes;
+pub mod strings;
